@@ -69,7 +69,20 @@ def _viol_keys(ctx: Ctx):
     return {(o.rule, o.file, o.function, o.construct) for o in ctx.obs if o.status == "violation"}
 
 
+def _clear_caches():
+    """Per-Repo caches are keyed by object identity and are never hit again once a variant is done: drop them, or a pool
+    worker that runs a hundred variants holds a hundred parsed repositories."""
+    from . import flow as _f, index as _i, rules as _r, states as _s
+    _f._CACHE.clear()
+    _i._IDX.clear()
+    _r._REACH_CACHE.clear()
+    _s._CACHE.clear()
+    import gc
+    gc.collect()
+
+
 def _run_variant(args):
+    _clear_caches()
     prop, v, repo_root, base_keys = args
     mod = importlib.import_module(f"hivecheck.props.{prop.lower()}")
     overlay = _apply(repo_root, v)
@@ -131,7 +144,7 @@ def run_selftest(prop: str, mod, base_ctx: Ctx, jobs: int = None, only: Optional
     if jobs > 1 and len(args) > 1:
         import multiprocessing as mp
 
-        with mp.get_context("fork").Pool(jobs) as pool:
+        with mp.get_context("fork").Pool(jobs, maxtasksperchild=25) as pool:
             res = pool.map(_run_variant, args, chunksize=1)
     else:
         res = [_run_variant(a) for a in args]
